@@ -135,8 +135,8 @@ Example C03_update_count_nonvacuous :
   emitted_len (emit_region enc_CoRRE false 48 48 [(0, 0, 100, 50); (0, 50, 10, 10)]) = Some 7.
 Proof. split; reflexivity. Qed.
 
-(* COUNT STAGE WITH BOTH REPAIRS ([announce_fixed true]: dccedf3 = explicit lastRectMode flag + bounding box of
-   the update region when the total would reach 0xFFFF; notes/fix_C03_6.diff = when that is not enough because
+(* BASELINE = the count stage of /repo since b5537e4 ([announce_fixed true]: dccedf3 = explicit lastRectMode flag +
+   bounding box of the update region when the total would reach 0xFFFF; b5537e4 = when that is not enough because
    the COPY rectangles alone reach the field size, they are merged into the update region and sent as pixels).
    The announced count is the number of rectangle headers that follow; LastRect termination only for a Tight
    client that enabled LastRect.  No hypothesis on the number of region rectangles, none on the number of
@@ -164,8 +164,9 @@ Example C03_update_count_partial_bbox_nonvacuous :
   announce_fixed true enc_Raw false 48 48 50 [] [] 3 = Some (3, [], false, true).
 Proof. exact announce_fixed_examples. Qed.
 
-(* F24 (finding of the audit, reproduced on /repo ec71507, corpus/C03/F24_copy_count_wrap.script): the first repair
-   alone ([announce_fixed false] = /repo since dccedf3) still wraps when the COPY rectangles reach the field size:
+(* F24 (finding of the audit, reproduced on /repo ec71507, repaired by b5537e4; regression witness
+   corpus/C03/F24_copy_count_wrap.script): the first repair alone ([announce_fixed false] = /repo between dccedf3
+   and b5537e4) still wraps when the COPY rectangles reach the field size:
    65535 copy rectangles announce the LastRect sentinel without LastRect, 65536 announce 0; with the second
    stage the same input announces 1 and sends 1 *)
 Theorem C03_count_wrap_copy_refuted :
@@ -342,8 +343,8 @@ Proof. exact caps_update. Qed.
 
 (* C03_caps, strict: CopyRect and the LastRect marker too only if named in the LATEST SetEncodings.
    Hypotheses: both count repairs in the source, [snap_ok], and the bookkeeping invariant "copyRegion is empty
-   whenever useCopyRect is off" -- which rfbScheduleCopyRegion maintains (C02) but SetEncodings did NOT before
-   notes/fix_C03_7.diff (finding F25: a pending copy survives the withdrawal of CopyRect); props/C03.py checks
+   whenever useCopyRect is off" -- which rfbScheduleCopyRegion maintains (C02) and, since 690d81d (repair of F25:
+   a pending copy used to survive the withdrawal of CopyRect), also the SetEncodings case; props/C03.py checks
    the invariant on every snapshot of the real server.
    Reading of "advertised" for PIXEL encodings: named in SOME SetEncodings so far -- the server keeps the
    previous preferred encoding when a later list names no pixel encoding ("Sticking with ...", rfbserver.c) *)
